@@ -16,7 +16,7 @@ CONSTANTS MaxLines, Mode
 VARIABLES x, ok
 vars == <<x, ok>>
 
-LineChoices == {<<>>, <<97>>, <<SP, 98>>, <<DOT>>, <<99, SP, 100>>}
+LineChoices == {<<>>, <<97>>, <<SP, 98>>, <<DOT>>, <<99, SP, 100>>, <<11, 101>>, <<TAB, 102>>}
 LineSeqs == UNION {[1..n -> LineChoices] : n \in 1..MaxLines}
 Values == {Join(ls, <<LF>>) \o t : ls \in LineSeqs, t \in {<<>>, <<LF>>}}
 P1(v) == [order |-> << <<75>> >>, values |-> << <<<<75>>, v>> >>]
